@@ -6,11 +6,17 @@ from ..osugen import gen_map
 from ..runner import Case, Property
 
 TEXTS = ["Re:Zero", "a // b", "//lead", "x: y: z", "[General]", "osu file format v9", "日本語 タイトル", "quote\"d\"", "comma, separated", "Ĉirkaŭ 上 ਊ 𐐊",
-         "tab\tinside", "[HitObjects]", "0,0,0,1,0", "key:value:more", "a", "trailing:", ":leading", "100%", "back\\slash", "A  B"]
-FILES = ["audio.mp3", "dir/sub/a.ogg", "with space.mp3", "colon:name.mp3", "ünï.ogg", "a[1].mp3", "x.MP4", "a", "mp3", "0", "1.5", "-1"]
+         "tab\tinside", "[HitObjects]", "0,0,0,1,0", "key:value:more", "a", "trailing:", ":leading", "100%", "back\\slash", "A  B",
+         # characters a Debug / escape-based formatter would rewrite (seed C03-k): combining marks (NFD spellings), ZWJ sequences,
+         # soft hyphen, zero-width space, a BOM and a no-break space INSIDE the text, control characters, quotes and apostrophes
+         "Cafe\u0301 del Mar", "か\u3099き", "👩\u200d👩\u200d👧", "soft\u00adhyphen", "zero\u200bwidth", "in\ufeffside", "no\u00a0break", "bell\x07x", "it's \"so\"", "\u202eRTL"]
+FILES = ["audio.mp3", "dir/sub/a.ogg", "with space.mp3", "colon:name.mp3", "ünï.ogg", "a[1].mp3", "x.MP4", "a", "mp3", "0", "1.5", "-1",
+         "Cafe\u0301.mp3", "か\u3099.ogg", "soft\u00adhyphen.mp3", "it's \"so\".mp3", "bell\x07.ogg"]
 BGS = ["bg.jpg", "dir/bg.png", "with space.png", "colon:bg.png", "日本.jpg", "a.b.c.jpeg",
        # short names and names that end like a video (the Video event has an extension rule; a Background event has none)
-       "bg", "a", "ab", "cover.AVI", "intro.mp4", "x.mov", "clip.flv", "m.mpg", "w.wmv", "v.m4v", "mp4", ".avi", "日本.MP4"]
+       "bg", "a", "ab", "cover.AVI", "intro.mp4", "x.mov", "clip.flv", "m.mpg", "w.wmv", "v.m4v", "mp4", ".avi", "日本.MP4",
+       # names a Debug-style quoting of the file name would escape (seed C03-k)
+       "Cafe\u0301 del Mar.jpg", "か\u3099.png", "the \"real\" one.jpg", "soft\u00adhyphen.png", "zero\u200bwidth.jpg", "👩\u200d👧.png", "bell\x07.png", "it's.jpg"]
 
 
 def f64h(x):
